@@ -1,54 +1,78 @@
 ------------------------------ MODULE TraceLogMC ------------------------------
 (* Model-checking instance of TraceLog: in every reachable state of the        *)
 (* bounded recorder (all event sequences up to MaxEvents events on the given   *)
-(* threads, nesting depth <= MaxDepth) TLC checks the laws of the contract     *)
-(* itself, on a family of candidate logs built from the state:                 *)
+(* threads, nesting depth <= MaxDepth, every way the threads' lifetimes can    *)
+(* overlap or follow one another) TLC checks the laws of the contract itself,  *)
+(* on a family of candidate logs built from the state.  A *layout* is a        *)
+(* sequence of blocks, each block a sequence of recording threads: block i is  *)
+(* written under tid i-1 and holds its threads' sequences one after the other. *)
+(* A layout is valid when every block lists a prec-chain in prec order (the    *)
+(* threads never coexisted and appear in the order they lived).                *)
 (*                                                                             *)
-(*   RefLog(rec, ord, x)  the log a correct saveLog may write: threads in any  *)
-(*        order `ord` (tids renumbered 0, 1, ...), a thread_name metadata      *)
-(*        entry per thread, optionally a process_name entry, a cpuUtilization  *)
+(*   RefLog(layout, x)   the log written for a layout: a thread_name metadata  *)
+(*        entry per block, optionally a process_name entry, a cpuUtilization   *)
 (*        counter after end events and data on end entries (x = TRUE)          *)
-(*   Mutants              every log that differs from a RefLog by one deleted, *)
-(*        duplicated, altered (name / category / value / kind) or, inside one  *)
-(*        tid, swapped relevant entry, or by one entry moved to a fresh tid    *)
-(*   Retags               one entry moved to another existing tid (may or may  *)
-(*        not still be acceptable: tids are only identified up to renaming)    *)
+(*   Mutants             every log that differs from a valid RefLog by one     *)
+(*        deleted, duplicated, altered (name / category / value / kind) or,    *)
+(*        inside one tid, swapped relevant entry, or by ALL entries of one     *)
+(*        recording thread removed (the list of a thread that has ended is     *)
+(*        lost when its id is handed to the next thread)                       *)
+(*   Retags              one entry moved to another or to a fresh tid (may or  *)
+(*        may not still be acceptable)                                         *)
 (*                                                                             *)
-(*   AcceptLaw   the contract accepts every RefLog  (not over-strict)          *)
-(*   RejectLaw   the contract rejects every mutant  (not vacuous)              *)
+(*   AcceptLaw   the contract accepts the RefLog of every valid layout: a tid  *)
+(*               per thread, and every sharing of a tid by threads that never  *)
+(*               coexisted, in the order they lived  (not over-strict)         *)
+(*   RejectLaw   the contract rejects every mutant, and the RefLog of every    *)
+(*               invalid layout: two threads that coexisted under one tid, or  *)
+(*               a chain in the wrong order  (not vacuous)                     *)
 (*   NestLaw     whatever the contract accepts has properly nested begin/end   *)
 (*               pairs in every tid                                            *)
 (*   EquivLaw    the incremental matcher that trace validation runs decides    *)
 (*               exactly the declarative contract, on all of the above         *)
+(*   AltLaw      the alternatives SaveLog's expectation lists are exactly the  *)
+(*               per-tid contents of the valid layouts                         *)
 EXTENDS TraceLog
 
 Entry(tid, ph, name, cat, val) == [tid |-> tid, ph |-> ph, name |-> name, cat |-> cat, val |-> val]
 
-RECURSIVE ConcatAll(_)
-ConcatAll(ss) == IF ss = <<>> THEN <<>> ELSE Head(ss) \o ConcatAll(Tail(ss))
+Act == Active(rec)
+NA  == Cardinality(Act)
 
-N == Cardinality(Threads)
-Orders == {o \in [1..N -> Threads] : \A i, j \in 1..N : o[i] = o[j] => i = j}
+\* all layouts of the recording threads: an order of the threads cut into consecutive blocks
+Orders == {o \in [1..NA -> Act] : \A i, j \in 1..NA : o[i] = o[j] => i = j}
+Cuts   == SUBSET (1..(NA - 1))                       \* a block ends after position c for every c in the cut
+BlocksOf(o, cut) ==
+  LET ends   == cut \cup {NA}
+      starts == {1} \cup {c + 1 : c \in cut}
+      nb     == Cardinality(ends)
+      Nth(S, i) == CHOOSE x \in S : Cardinality({y \in S : y < x}) = i - 1
+  IN [i \in 1..nb |-> SubSeq(o, Nth(starts, i), Nth(ends, i))]
+Layouts == IF NA = 0 THEN {<<>>} ELSE {BlocksOf(o, c) : o \in Orders, c \in Cuts}
+BlockValid(b) == \A i, j \in DOMAIN b : i < j => <<b[i], b[j]>> \in prec
+Valid(lay)    == \A i \in DOMAIN lay : BlockValid(lay[i])
 
-Block(r, t, tid, x) ==
-  <<Entry(tid, "M", "thread_name", "", 0)>> \o
-  ConcatAll([i \in DOMAIN r[t] |->
-     LET ev == r[t][i] IN
+ThreadEntries(t, tid, x) ==
+  Concat([i \in DOMAIN rec[t] |->
+     LET ev == rec[t][i] IN
        <<Entry(tid, ev.k, ev.name, ev.cat, IF ev.k = "E" /\ x THEN 55 ELSE ev.val)>>
        \o (IF ev.k = "E" /\ x THEN <<Entry(tid, "C", "cpuUtilization", "builtin", -1)>> ELSE <<>>)])
 
-RefLog(r, ord, x) ==
-  (IF x THEN <<Entry(0, "M", "process_name", "", 0)>> ELSE <<>>)
-  \o ConcatAll([i \in 1..N |-> Block(r, ord[i], i - 1, x)])
+Block(b, tid, x) == <<Entry(tid, "M", "thread_name", "", 0)>> \o Concat([i \in DOMAIN b |-> ThreadEntries(b[i], tid, x)])
 
-RefLogs == {RefLog(rec, o, x) : o \in Orders, x \in BOOLEAN}
+RefLog(lay, x) ==
+  (IF x THEN <<Entry(0, "M", "process_name", "", 0)>> ELSE <<>>)
+  \o Concat([i \in DOMAIN lay |-> Block(lay[i], i - 1, x)])
+  \o (IF x THEN <<Entry(Len(lay), "M", "thread_name", "", 0)>> ELSE <<>>)          \* a registered thread that recorded nothing
+
+GoodLogs == {RefLog(lay, x) : lay \in {l \in Layouts : Valid(l)}, x \in BOOLEAN}
+BadLogs  == {RefLog(lay, x) : lay \in {l \in Layouts : ~Valid(l)}, x \in BOOLEAN}
 
 Del(l, i)  == SubSeq(l, 1, i - 1) \o SubSeq(l, i + 1, Len(l))
 Dup(l, i)  == SubSeq(l, 1, i) \o SubSeq(l, i, Len(l))
 Swap(l, i, j) == [l EXCEPT ![i] = l[j], ![j] = l[i]]
 
 RelIdx(l)  == {i \in DOMAIN l : Relevant(l[i], CNames(rec))}
-TidCount(l, g) == Cardinality({i \in RelIdx(l) : l[i].tid = g})
 
 MutantsOf(l) ==
   LET RI == RelIdx(l) IN
@@ -60,22 +84,36 @@ MutantsOf(l) ==
   \cup {[l EXCEPT ![i].val = @ - 1] : i \in {j \in RI : l[j].ph = "C"}}
   \cup {[l EXCEPT ![i].ph = "X"] : i \in RI}
   \cup {[l EXCEPT ![i].ph = IF @ = "B" THEN "i" ELSE "B"] : i \in {j \in RI : l[j].ph \in {"B", "i"}}}
-  \cup {[l EXCEPT ![i].tid = 99] : i \in {j \in RI : TidCount(l, l[j].tid) >= 2}}
 
-RetagsOf(l) == {[l EXCEPT ![i].tid = g] : i \in RelIdx(l), g \in 0..(N - 1)}
+\* the log of a valid layout without the entries of thread t (all of them: its list was lost)
+LostThreadLogs == {RefLog([i \in DOMAIN lay |-> SelectSeq(lay[i], LAMBDA u : u # t)], x) :
+                     lay \in {l \in Layouts : Valid(l)}, x \in BOOLEAN, t \in Act}
 
-Mutants == UNION {MutantsOf(l) : l \in RefLogs}
-Retags  == UNION {RetagsOf(l) : l \in RefLogs}
+RetagsOf(l) == {[l EXCEPT ![i].tid = g] : i \in RelIdx(l), g \in (0..(NA - 1)) \cup {99}}
 
-AcceptLaw == \A l \in RefLogs : Accepts(l, rec) /\ LogNested(l, CNames(rec))
-RejectLaw == \A l \in Mutants : ~Accepts(l, rec)
-NestLaw   == \A l \in RefLogs \cup Mutants \cup Retags : Accepts(l, rec) => LogNested(l, CNames(rec))
-EquivLaw  == \A l \in RefLogs \cup Mutants \cup Retags : MatchLog(l, rec) <=> Accepts(l, rec)
+Mutants == UNION {MutantsOf(l) : l \in GoodLogs}
+Retags  == UNION {RetagsOf(l) : l \in GoodLogs}
+Candidates == GoodLogs \cup BadLogs \cup Mutants \cup LostThreadLogs \cup Retags
+
+AcceptLaw == \A l \in GoodLogs : Accepts(l, rec, prec) /\ LogNested(l, CNames(rec))
+RejectLaw == \A l \in Mutants \cup BadLogs \cup LostThreadLogs : ~Accepts(l, rec, prec)
+NestLaw   == \A l \in Candidates : Accepts(l, rec, prec) => LogNested(l, CNames(rec))
+EquivLaw  == \A l \in Candidates : MatchLog(l, rec, prec) <=> Accepts(l, rec, prec)
+
+\* SaveLog's alternatives = the per-tid contents of the valid layouts (as multisets of sequences: compared through Accepts)
+AltLaw == last.a = "SaveLog" =>
+            /\ \A i \in DOMAIN last.exp.alt :
+                 Accepts(Concat([g \in DOMAIN last.exp.alt[i] |->
+                           [k \in DOMAIN last.exp.alt[i][g] |-> LET e == last.exp.alt[i][g][k] IN Entry(g, e.ph, e.name, e.cat, e.val)]]), rec, prec)
+            /\ Len(last.exp.alt) = Cardinality({{lay[i] : i \in DOMAIN lay} : lay \in {l \in Layouts : Valid(l)}})
 
 \* the empty log: nothing recorded, the array may be empty or hold metadata only
-EmptyLaw  == Active(rec) = {} => Accepts(<<>>, rec) /\ MatchLog(<<>>, rec) /\ ~Accepts(<<Entry(0, "B", "frame", "", 0)>>, rec)
+EmptyLaw  == Act = {} => /\ Accepts(<<>>, rec, prec) /\ MatchLog(<<>>, rec, prec)
+                         /\ ~Accepts(<<Entry(0, "B", "frame", "", 0)>>, rec, prec)
 
-\* negative control (expected to be VIOLATED): moving an entry to another existing tid is not always a rejection,
-\* because tids are identified only up to renaming (thread A = <<x, y>>, thread B = <<x>>: move y from A to B)
-RetagAlwaysRejected == \A l \in Retags : ~Accepts(l, rec)
+\* negative controls (each expected to be VIOLATED)
+\* moving an entry to another tid is not always a rejection: tids are identified only up to renaming
+RetagAlwaysRejected == \A l \in Retags : ~Accepts(l, rec, prec)
+\* threads that never coexisted MAY share a tid: demanding a tid per thread would be over-strict
+OneTidPerThread == \A l \in GoodLogs : Cardinality({l[i].tid : i \in RelIdx(l)}) = NA
 ===============================================================================
